@@ -56,6 +56,8 @@ struct Ctx<'a> {
     item: &'a str,
     cur: String,
     consts: Vec<(String, syn::Expr)>,
+    /// private functions of the file whose body is `(let x = E;)* <expr>`: a call is read as that expression
+    helpers: std::collections::BTreeMap<String, Helper>,
 }
 
 fn dur(cx: &Ctx, env: &Env, e: &syn::Expr) -> R<Dur> {
@@ -85,6 +87,19 @@ fn dur(cx: &Ctx, env: &Env, e: &syn::Expr) -> R<Dur> {
                 let a = Box::new(dur(cx, env, &c.args[0])?);
                 let b = Box::new(dur(cx, env, &c.args[1])?);
                 return Ok(if last == "max" { Dur::Max(a, b) } else { Dur::Min(a, b) });
+            }
+            // a private helper function (without receiver) called with this many arguments: its body, with the arguments
+            // for the parameters
+            if segs.len() == 1 || (segs.len() == 2 && (segs[0] == "Self" || segs[0] == TY)) {
+                if let Some(h) = cx.helpers.get(&last) {
+                    if !h.has_self && h.params.len() == c.args.len() {
+                        let mut inner = Env::default();
+                        for (p, a) in h.params.iter().zip(c.args.iter()) {
+                            inner.map.insert(p.clone(), a.clone());
+                        }
+                        return dur(cx, &inner, &h.body);
+                    }
+                }
             }
             bad("call")
         }
@@ -213,7 +228,7 @@ fn process(f: &syn::ImplItemFn, file: &syn::File) -> R<Process> {
             cs.0.push(c);
         }
     }
-    let cx = Ctx { item, cur, consts: cs.0 };
+    let cx = Ctx { item, cur, consts: cs.0, helpers: helpers_of(file, Some(TY), &["prepare_request", "process_response", "compute_timeout", "request", "request_async"]) };
     let stmts = &f.block.stmts;
     let shape1 = "first statement `let H = match <res> { Ok(x) => x, Err(_) => { .. return <..>::<Variant>(<duration>); } };`";
     // S1
